@@ -61,7 +61,7 @@ Definition suite_C03walk (inp obs : list tok) : verdict :=
         | [TL calls; TN k; TN v] =>
             match dec_calls (S (length calls)) calls with
             | Some cl => {| v_model := enc_walk (run_C03walk cs);
-                            v_ok := ok_C03walk cs {| wo_calls := cl; wo_k := k; wo_v := v |};
+                            v_ok := (k <? 10) && ok_C03walk cs {| wo_calls := cl; wo_k := k; wo_v := v |};
                             v_wellformed := true |}
             | None => malformed end
         | _ => malformed end
